@@ -125,11 +125,29 @@ def r3_completion(ctx, prog):
                            'completion callback invoked directly instead of being posted to the loop', where=f.loc(st['i']))
         if n_inv == 0:
             raise AnalysisBroken('%s: no invocation of Task::backend_task found' % cls)
+        # loop-thread-only entry points are never called in the worker role
+        for f, e, r in ctxs:
+            if r != 'worker':
+                continue
+            for st in f.calls():
+                if st.get('cls') == 'tbox::event::Loop' and st.get('fn') in ('run', 'runNext'):
+                    ctx.ob('C05.R3', '%s|loop-entry-in-worker' % locks.site_name(prog, f), False,
+                           'Loop::%s() is called on a worker thread: it is only safe on the loop thread (use runInLoop())' % st['fn'], where=f.loc(st['i']))
         # posting of main_cb
         posts = [st for st in w.stmts if st and q.is_call(st, fn='runInLoop', cls='tbox::event::Loop') and st.get('args')
                  and (w.field_of(st['args'][0]) or '').endswith('Task::main_cb')]
+        # every other call in the worker that receives main_cb is a wrong hand-over: Loop::run()/runNext() are loop-thread-only
+        # (run() falls back to the unlocked runNext() when the loop is not running), anything else bypasses the loop
+        for st in w.stmts:
+            if st and st['k'] in q.CALL_KINDS and st not in posts and any((w.field_of(a) or '').endswith('Task::main_cb') for a in st.get('args', ())):
+                if st.get('cls', '').startswith('std::function') or st.get('fn') in ('operator bool', 'operator=') or st.get('op') in ('=',):
+                    continue
+                ctx.ob('C05.R3', '%s|main_cb-sink' % w.name, False,
+                       'the worker hands main_cb to %s(): only Loop::runInLoop() may be called from a worker thread (run()/runNext() touch the loop\'s unlocked '
+                       'queue when the loop is not running — a data race, and the callback can be lost)' % (st.get('callee') or st.get('fn')), where=w.loc(st['i']))
         if not posts:
-            raise AnalysisBroken('%s::threadProc: posting of main_cb through Loop::runInLoop not found' % cls)
+            ctx.ob('C05.R3', '%s|main_cb-posted' % w.name, False, 'the completion callback is never posted to the loop through Loop::runInLoop()', where=w.loc(w.body))
+            continue
         runs = [st for st in w.stmts if st and _is_backend_invoke(w, st)]
         erases = [st for st in w.stmts if st and q.is_call(st, fn='erase') and q.obj_field_is(w, st, 'Data::doing_tasks_token')]
         frees = [st for st in w.stmts if st and q.is_call(st, fn='free', cls='tbox::ObjectPool<') and q.obj_field_is(w, st, 'Data::task_pool')]
